@@ -2,7 +2,7 @@
 # usage: confirm_mut.sh <ID> <demo test name (integration test under memcrs/tests, without .rs)>
 # Confirms in the agent's scratch worktree: patch applies at HEAD, both builds, the 92 tests pass with the change (demo moved aside),
 # the demo fails with the change and passes without it.
-ID=$1; DEMO=$2; W=/tmp/mut/$ID
+ID=$1; DEMO=$2; W=/tmp/${MUTROOT:-mut}/$ID
 cd $W || exit 2
 git stash -q -u 2>/dev/null; git checkout -q -- . ; git stash pop -q 2>/dev/null
 # make sure the worktree has exactly the patch applied on the source
@@ -17,9 +17,9 @@ cargo test --workspace --offline --target-dir $W/target 2>&1 | grep -E "^test re
 mv $W/aside/* $W/memcrs/tests/ 2>/dev/null
 if [ -n "$DEMO" ]; then
 echo "--- demo WITH the change"
-cargo test --offline -p memcrs --target-dir $W/target --test $DEMO 2>&1 | grep -E "^test result|panicked" | head -3
+cargo test --offline -p memcrs --target-dir $W/target --test $DEMO 2>&1 | grep -E "^test result" | head -2
 git apply -R mutant/patch.diff
 echo "--- demo WITHOUT the change"
-cargo test --offline -p memcrs --target-dir $W/target --test $DEMO 2>&1 | grep -E "^test result|panicked" | head -3
+cargo test --offline -p memcrs --target-dir $W/target --test $DEMO 2>&1 | grep -E "^test result" | head -2
 git apply mutant/patch.diff
 fi
